@@ -3,7 +3,7 @@ import re
 from . import suite, gen_prog
 from .propbase import *
 
-NOISE_WS = ["  ", "\t", " \t ", " ", "   "]
+NOISE_WS = ["  ", "\t", " \t ", " ", "   ", "\u00a0", "\u3000", " \x0b", "\u2003 ", "\x85", "\u205f", "\u1680", "\u202f"]
 NOISE_PUNCT = ["!", "?", ";", ":", " !", "?!"]
 COMMENTS = ["(note)", "(a comment, with stuff)", "( )", "(multi\nline)"]
 SAFE_START = re.compile(r"^(say|shout|whisper|scream|put|let|if|while|until|build|knock|rock|roll|cut|split|shatter|join|unite|cast|burn|turn|give|return|send|listen)\b", re.I)
@@ -57,7 +57,7 @@ def run(chk):
     seed0 = rng.randrange(10 ** 9)
     variants = []
     for v in range(k):
-        progs, stats = gen_prog.gen_programs(seed0, n, spelling_seed=1000 + v, focus={"listen": 0.3}, recase_names=False)
+        progs, stats = gen_prog.gen_programs(seed0, n, spelling_seed=1000 + v, focus={"listen": 0.3, "lists": 0.45}, recase_names=False)
         variants.append(progs)
     for key, val in stats.items():
         chk.count("gen:" + key, val)
